@@ -2,15 +2,17 @@ ID = "C13"
 CHECK = {
     "level": "exploration",
     "assumptions": [
-        "a directory is never renamed into its own subtree (kernel and NFS clients refuse this before calling the server; the code carries a TODO for the missing check); counted in excluded_by_generator",
-        "CreateChildren / InitialContentsFetcher results never contain two names that collide under the ComponentNormalizer (the code panics by design)",
-        "symlink targets are unique per case: whether two symlinks with one target are one node or two is handle allocator specific (NFS dedups by target, FUSE does not)",
+        "ASSUMPTION (real precondition): a directory is never renamed into its own subtree. VirtualRename has no ancestor check (in_memory_prepopulated_directory.go carries the TODO 'Pick up an interlock and check for potential creation of cyclic directory structures'), neither the FUSE nor the NFSv4 front end adds one; the code relies on its callers: the Linux VFS (lock_rename: s_vfs_rename_mutex plus ancestor test, EINVAL) and NFS clients refuse such a rename before it reaches the server. Counted in excluded_by_generator",
+        "CreateChildren calls and InitialContentsFetcher results with two spellings of one name under the ComponentNormalizer ARE generated (the code documents an InvalidArgument error that leaves the directory unchanged resp. uninitialised); the same spelling twice cannot be expressed (map keys)",
+        "symlinks with equal targets are generated; whether they are one node or several is handle allocator specific and the reference tree follows the allocator in use: the NFS allocator hands out one node for all linked symlinks of one target (nfsStatelessHandleAllocation.AsLinkableLeaf: 'Reuse an existing leaf if one exists'), the FUSE allocator one node per creation with an inode number that is a function of the target",
         "VirtualLink of a symlink that has been unlinked everywhere is not generated (outcome is handle allocator specific)",
         "a directory that is still uninitialised (lazy) has never been observed by any client, so its change ID is only required not to decrease while it is initialised or force-emptied; ChangeInfo.Before may then be later than the value read before the call",
         "where two POSIX errors apply at once (VirtualMknod: EEXIST/ENOENT vs EPERM/EIO, VirtualLink: EEXIST/ENOENT vs ESTALE) either is accepted",
         "case-insensitive rename of a name onto itself (a -> A) is treated as renaming a file onto itself: no effect, as the code does",
         "file contents live in a trivially correct in-memory FilePool (the block device pool is C15's subject); only package virtual is under test",
-        "sizes: names from {a,b,A,c,.hidden}, at most 6 live directories plus removed ones still referenced, lazy specs of depth <= 2, listing page sizes 1-3, at most 3 open listings",
+        "VirtualSetAttributes of a directory with a size is accepted as EINVAL (the code's choice) or EISDIR (POSIX truncate); chown of directories and files is EPERM, as the tree's own tests document",
+        "leaf calls: VirtualRead/VirtualSeek only on a file opened with the read bit, VirtualWrite/VirtualAllocate only with the write bit (the front ends guarantee it), no open outlives a step; VirtualOpenSelf and VirtualSetAttributes also on files that were unlinked everywhere (ESTALE where the pool file is needed); share masks 0 and masks with unknown bits (4, 7) are passed to VirtualOpenSelf/VirtualClose in pairs (the code counts set bits); one-shot failures of the pool file's ReadAt/WriteAt (also short writes)/Truncate/GetNextRegionOffset must surface as EIO and leave the file as the pool file left it",
+        "sizes: names from {a,b,A,c,.hidden}, at most 6 live directories plus removed ones still referenced, lazy specs of depth <= 2, listing page sizes 1-3, at most 3 open listings; one case in six uses the wide profile (16 names, one directory filled to 12-16 entries, page sizes 1-8 and 'all', at most 4 open listings, three in ten cursor steps rewind)",
     ],
     "tests": [
         T("vfsdir", "TestC13DirectoryModel",
